@@ -4,7 +4,10 @@ import json, os, sys
 V = os.path.join(os.path.dirname(os.path.abspath(__file__)), "..")
 sys.path.insert(0, os.path.join(V, "rules"))
 import mir, mustpass
-F = mir.load("default")
-out, _ = mustpass.compute(F)
-json.dump(out, open(os.path.join(V, "tables", "mustpass.json"), "w"), indent=0, sort_keys=True)
-print(len(out), "functions;", sum(len(e["mp"]) for e in out.values()), "must-pass;", sum(len(e["turn"]) for e in out.values()), "every-turn;", sum(len(e.get("loops", [])) for e in out.values()), "loops;", sum(len(v) for e in out.values() for v in e.get("arms", {}).values()), "arm facts")
+import common
+cfgs = ["default"] + (list(common.THOROUGH_CONFIGS) if "--all" in sys.argv else [])
+for cfg in cfgs:
+    F = mir.load(cfg)
+    out, _ = mustpass.compute(F)
+    json.dump(out, open(os.path.join(V, "tables", "mustpass.json" if cfg == "default" else "mustpass-%s.json" % cfg), "w"), indent=0, sort_keys=True)
+    print(cfg, len(out), "functions;", sum(len(e["mp"]) for e in out.values()), "must-pass;", sum(len(e["turn"]) for e in out.values()), "every-turn;", sum(len(e.get("loops", [])) for e in out.values()), "loops;", sum(len(v) for e in out.values() for v in e.get("arms", {}).values()), "arm facts")
